@@ -86,6 +86,33 @@ func emissionsOf(fn *ssa.Function, s *Summary, resultIdx int) []Emission {
 	return out
 }
 
+// emissionsG is emissionsOf across activations: the appends that contribute elements to result
+// resultIdx of the evaluated function, including those made by helpers outside the vocabulary
+// (inlined activations).  The reach condition of an emission in an inlined activation is already
+// absolute (the activation is evaluated under its call site's condition).
+func emissionsG(g *Gate, s *Summary, resultIdx int) []Emission {
+	var out []Emission
+	seen := map[*ssa.Call]map[*Summary]bool{}
+	for _, b := range s.Fn.Blocks {
+		r, ok := b.Instrs[len(b.Instrs)-1].(*ssa.Return)
+		if !ok || resultIdx >= len(r.Results) {
+			continue
+		}
+		ems, _ := traceAppends(g, AV{s, r.Results[resultIdx]})
+		for _, em := range ems {
+			if seen[em.Call] == nil {
+				seen[em.Call] = map[*Summary]bool{}
+			}
+			if seen[em.Call][em.Act] {
+				continue
+			}
+			seen[em.Call][em.Act] = true
+			out = append(out, Emission{Call: em.Call, Elems: em.Elems, RC: em.RC})
+		}
+	}
+	return out
+}
+
 // guardedBy checks that every emission of fn is dominated (in the gated
 // sense: reach condition implies) by a true result of pred(elem, query),
 // where query is the expression of parameter queryParam of fn.
@@ -97,7 +124,7 @@ func guardedBy(c *Ctx, rule string, fn, pred *ssa.Function, queryParam int, what
 	c.Fn(FuncName(fn))
 	q := g.ParamExprs(fn)[queryParam]
 	n := 0
-	for _, em := range emissionsOf(fn, s, 0) {
+	for _, em := range emissionsG(g, s, 0) {
 		key := shortFn(fn) + ": emitted element re-validated by " + shortFn(pred)
 		n++
 		if em.Elems == nil {
@@ -319,8 +346,8 @@ func fullUnconditionalLoop(u *U, s *Summary, loops []*Loop, site ssa.Instruction
 	if !onlyExhaustionExit(l) {
 		return false, ro.Coll, "the loop has an early exit"
 	}
-	if s.RC[site.Block()] != u.bdd.And(s.RC[l.Header], contCond(u, s, l)) {
-		return false, ro.Coll, "the operation is conditional inside the loop: " + clip(u.ShowBool(s.RC[site.Block()]), 160)
+	if s.RCAt(site) != u.bdd.And(s.RC[l.Header], contCond(u, s, l)) {
+		return false, ro.Coll, "the operation is conditional inside the loop: " + clip(u.ShowBool(s.RCAt(site)), 160)
 	}
 	return true, ro.Coll, ""
 }
